@@ -157,7 +157,33 @@ type c14Op struct {
 }
 
 func (c C14) Run(t *tape.Tape, opt core.RunOpt) (res core.Result) {
-	root := workload.NewSynthRoot()
+	// Two kinds of root: a synthetic one (empty at first, data fabricated from
+	// the schema) and, in one run of four, a zoo root with real data behind a
+	// drawn resolver strategy, already loaded and warmed up (lazy reflection
+	// bindings in place) - failed loads must not disturb those either.
+	newRoot := workload.NewSynthRoot
+	zooMode := t.Bool(1, 4)
+	var warm []string
+	if zooMode {
+		strat := []workload.Strategy{workload.StratReflect, workload.StratReflect, workload.StratInterface, workload.StratAny}[t.Draw(4)]
+		q := workload.GenZoo(t)
+		for i := 0; i < 2; i++ {
+			r := workload.GenRequest(t, workload.ReqOpt{Strat: strat, NoErrors: true, MaxDepth: 3})
+			warm = append(warm, r.Src)
+		}
+		newRoot = func() *ggql.Root {
+			z, err := workload.NewZoo(q, strat)
+			if err != nil {
+				panic("cannot build zoo root: " + err.Error())
+			}
+			for _, w := range warm {
+				_ = workload.SafeResolve(z.Root, w, "", nil)
+			}
+			return z.Root
+		}
+		res.Count("probe_runs_on_warm_zoo_root", 1)
+	}
+	root := newRoot()
 	gen := &workload.Gen{T: t}
 	var good []*c14Load
 	var ops []c14Op
@@ -443,7 +469,7 @@ func (c C14) Run(t *tape.Tape, opt core.RunOpt) (res core.Result) {
 				res.NonTrivial = true
 			}
 			good = append(good, load)
-			model := workload.NewSynthRoot()
+			model := newRoot()
 			for i, l := range good {
 				if e := safeLoad(&res, func() error { return applyLoad(model, l) }); e != nil {
 					res.Violate("C14", "model_replay_failed",
